@@ -395,7 +395,10 @@ fn l2_op(case: &SCase, op: &SOp) {
         SOp::InvWith { name, mask } => {
             let f = case.fns.iter().cloned().find(|f| spec(*f).reg_name == name);
             let m = *mask;
+            let invoke = EVT.fetch_add(1, Ordering::Relaxed);
             cachelito_core::invalidate_with(name, |k: &str| f.and_then(|f| key_of_str(f, k)).map_or(false, |x| m & (1 << x) != 0));
+            let ret = EVT.fetch_add(1, Ordering::Relaxed);
+            rep(|rp| rp.invs.push(InvEv { op: op.clone(), invoke, ret }));
             count("fault.invalidate_with");
         }
         SOp::InvAllWith(masks) => {
@@ -540,7 +543,9 @@ pub fn history_checks(case: &SCase, rp: &Report, prop: &str) -> Option<(String, 
     }
     // C04 / C14 under concurrency: while a cache with limit N has seen at most N distinct keys, nothing
     // may be evicted, so a value whose storing call has returned must be served to every later caller
-    if only_calls {
+    let calls_and_inv_with = case.threads.iter().flatten().all(|op| matches!(op, SOp::Call { .. } | SOp::InvWith { .. }));
+    if calls_and_inv_with {
+        let any_inv = !rp.invs.is_empty();
         for c in rp.calls.iter().filter(|c| c.executed) {
             let s = spec(c.f);
             let n = match s.limit {
@@ -557,10 +562,18 @@ pub fn history_checks(case: &SCase, rp: &Report, prop: &str) -> Option<(String, 
             if distinct.len() > n {
                 continue;
             }
-            if let Some(d) = rp.calls.iter().find(|d| d.executed && d.f == c.f && d.k == c.k && d.ret < c.invoke) {
+            // an earlier storing call whose entry no invalidation can have removed: every conditional
+            // invalidation that names this key and overlaps or follows the store excuses the re-execution
+            let excused = |d: &CallEv| {
+                rp.invs.iter().any(|i| match &i.op {
+                    SOp::InvWith { name, mask } => name == s.reg_name && mask & (1 << c.k) != 0 && i.ret > d.invoke && i.invoke < c.ret,
+                    _ => true,
+                })
+            };
+            if let Some(d) = rp.calls.iter().find(|d| d.executed && d.f == c.f && d.k == c.k && d.ret < c.invoke && !excused(d)) {
                 return Some((
                     "evicted_below_limit".into(),
-                    vec!["C04".into(), "C14".into()],
+                    if any_inv { vec!["C13".into()] } else { vec!["C04".into(), "C14".into()] },
                     format!("{}({}) [{}] ran its body in a call invoked at event {} although a call that stored it had returned at event {} and the program uses only {} distinct keys (limit {n}): an entry was evicted without overflow", s.fn_name, c.k, s.attrs, c.invoke, d.ret, distinct.len()),
                 ));
             }
@@ -852,7 +865,7 @@ pub fn gen_case(prop: &str, seed: u64) -> (SCase, Sched) {
         .iter()
         .filter(|s| registered(s))
         .filter(|s| match prop {
-            "C04" | "C14" => s.limit.is_some() && s.ttl.is_none() && s.max_memory.is_none() && !s.has_inv_on && !s.has_cache_if && !s.is_result && s.family != "nested",
+            "C04" | "C14" | "C13" => s.limit.is_some() && s.ttl.is_none() && s.max_memory.is_none() && !s.has_inv_on && !s.has_cache_if && !s.is_result && s.family != "nested",
             "C03" => s.limit.is_none() && s.ttl.is_none() && s.max_memory.is_none() && !s.has_inv_on && !s.has_cache_if && !s.is_result,
             // nested bodies perform lookups that are not top-level calls of the program
             "C15" => s.family != "nested",
@@ -902,7 +915,7 @@ pub fn gen_case(prop: &str, seed: u64) -> (SCase, Sched) {
         for _ in 0..r.range(2, 6) {
             let f = *r.pick(&fns);
             let s = spec(f);
-            let nk = if matches!(prop, "C04" | "C14") {
+            let nk = if matches!(prop, "C04" | "C14" | "C13") {
                 // no more distinct keys than the limit: nothing may ever be evicted
                 (s.nkeys as u64).min(s.limit.unwrap_or(1) as u64).max(1)
             } else {
@@ -913,6 +926,9 @@ pub fn gen_case(prop: &str, seed: u64) -> (SCase, Sched) {
                 ops.push(SOp::Adv(*r.pick(&[SEC, 2 * SEC, 3 * SEC])));
             } else if only_calls || r.chance(3, 5) {
                 ops.push(SOp::Call { f, k: r.below(nk) as Key });
+            } else if prop == "C13" {
+                // conditional invalidation of a few of the keys in use
+                ops.push(SOp::InvWith { name: s.reg_name.to_string(), mask: (r.below(1 << nk) as u8) });
             } else if prop == "C12" {
                 let name = NAMES[r.below(9) as usize].to_string();
                 ops.push(match r.below(5) {
